@@ -8,7 +8,7 @@ from . import seqcheck as sq
 
 class TraceModelCheck:
     def __init__(self, jobs, trace_spec, models, rule, assumptions, count_keys=(), deviation_consts=False, parts=6,
-                 expect_model_violation=()):
+                 expect_model_violation=(), job_workers=2):
         self.jobs = jobs                    # tier -> [driver arg list]
         self.trace_spec = trace_spec
         self.models = models                # tier -> [(module, cfg_text)]
@@ -18,6 +18,7 @@ class TraceModelCheck:
         self.deviation_consts = deviation_consts
         self.parts = parts
         self.expect_model_violation = expect_model_violation  # [(module, cfg_text, note)]: must FAIL (documents a finding)
+        self.job_workers = job_workers
 
     def run(self, prop, tier):
         t0 = time.time()
@@ -80,7 +81,7 @@ class TraceModelCheck:
                                   no_checkmem=True, no_deviations=not self.deviation_consts)
             return di, dargs, json.load(open(stats)), r
 
-        with ThreadPoolExecutor(max_workers=2) as ex:
+        with ThreadPoolExecutor(max_workers=self.job_workers) as ex:
             results = list(ex.map(one, list(enumerate(self.jobs[tier]))))
         for di, dargs, st, r in results:
             if st.get("crashed"):
